@@ -51,10 +51,11 @@ class FSock(object):
         return 0
 
     def settimeout(self, t):
-        pass
+        # honoured in virtual time by the receiving side (a timeout left on a socket limits every later wait on it)
+        self.timeout = t if isinstance(t, (int, float)) and not isinstance(t, bool) else None
 
     def gettimeout(self):
-        return None
+        return getattr(self, "timeout", None)
 
     def setblocking(self, b):
         pass
@@ -119,7 +120,9 @@ class FSock(object):
         if p is None:
             raise OSError(errno.ENOTCONN, "not connected")
         if not p.buf and not p.closed:
-            sched.S.block(lambda: p.buf or p.closed, None, "recv")
+            t = getattr(self, "timeout", None)
+            if not sched.S.block(lambda: p.buf or p.closed, t, "recv") and t is not None and not p.buf and not p.closed:
+                raise TimeoutError("timed out")
         if not p.buf:
             # end of stream: a reader that keeps asking would spin forever without ever yielding
             self.eof_reads = getattr(self, "eof_reads", 0) + 1
